@@ -473,6 +473,19 @@ type wireToken struct {
 func (r *registry) doTokenRequest(req *http.Request) (*wireToken, error) {
 	client := &http.Client{
 		Transport: r.transport,
+		// The request carries credentials (a refresh token in its body or
+		// a Basic Authorization header) that are meant only for the token
+		// realm named by the registry, so don't let a redirect take them
+		// to some other host.
+		CheckRedirect: func(req *http.Request, via []*http.Request) error {
+			if req.URL.Host != via[0].URL.Host {
+				return http.ErrUseLastResponse
+			}
+			if len(via) >= 10 {
+				return errors.New("stopped after 10 redirects")
+			}
+			return nil
+		},
 	}
 	resp, err := client.Do(req)
 	if err != nil {
